@@ -118,6 +118,13 @@ def judge_main(ctx, case, inp, impl, apply_ans, spec_ans, known_shapes, stream="
         ctx.case(None, syntax=case_syntax(case))
         return
     model = canon_model(apply_ans["out"])
+    if "out_prefilter" in spec_ans and canon_model(spec_ans["out_prefilter"]) != model:
+        # two Lean evaluations of the same input that differ only in the ORDER in which the matches of a link are
+        # visited (resMatches vs specMatches; C02_matches_iff proves they are the same set): the input's result depends
+        # on that order (e.g. a `replace` of one match decides a `[ patterns ]` veto of another match of the same link)
+        ctx.tally(order_dependent_cases_skipped=True)
+        ctx.case(None, syntax=case_syntax(case))
+        return
     ctx.correspond("applyLinks", impl, model, replay)
     ctx.traces += 1
     removed = apply_ans["out"]["removed"]
